@@ -69,9 +69,22 @@ theorem insert_str_tie (idx : Nat) (t : Str) (s : St) (hd : DataOk s.hp) (hr : R
                 have := text_len hd hr htx
                 omega)
               have hfull := eq_true (Nat.le_refl t.b.length)
+              have hile' : idx ≤ r.len := by
+                have hile : idx ≤ tx.length := by
+                  rcases Nat.lt_or_ge tx.length idx with h' | h'
+                  · have := hb; unfold isBoundary at this
+                    rw [if_neg (by omega), List.getElem?_eq_none (by omega)] at this
+                    simp at this; omega
+                  · exact h'
+                have := text_len hd hr htx
+                omega
+              have hlt := reserve_ok_add hrv
+              have ha1 := eq_true (show idx + t.b.length < USIZE by omega)
+              have ha2 := eq_true (show idx ≤ newLen by omega)
+              have ha3 := eq_true (show t.b.length ≤ newLen - idx by omega)
               cases hs3 : setLen r3 newLen with
               | error u => rw [hs3] at hub; exact absurd rfl (hub u)
               | ok r4 =>
-                rt_step [htx, hb, hca, call_norm, hres, hrv, stepOfRes, hsl, hstor, hcnt, hrd, htail, Nat.zero_add, hw1,
+                rt_step [htx, hb, hca, call_norm, hres, hrv, stepOfRes, hsl, hstor, ha1, ha2, ha3, hcnt, hrd, htail, Nat.zero_add, hw1,
                   hfull, List.take_length, hw2, set_len_step, hs3, norm_next, norm_done, norm_pidx, norm_ub, resOf]
 end LS.GenTie
